@@ -344,6 +344,9 @@ def _image_in_space(S, cls, acc, img, sq):
         if space is None:
             return out
         iv = img.ival
+        if getattr(img, "bool_tokens", None):
+            out = [("bool", "%s passes validation (bool is an Integral) and is written as %s, which is not a lexeme of %s; the file "
+                            "no longer re-opens (int('True'))" % (" / ".join(img.bool_tokens), " / ".join(repr(t) for t in img.bool_tokens), S.tname(sq)))]
         for lo, hi in space:
             if (lo is None or (iv.lo is not None and iv.lo >= lo)) and (hi is None or (iv.hi is not None and iv.hi <= hi)):
                 return out
